@@ -489,7 +489,12 @@ func (c *Client) Connect(ctx context.Context) error {
 		defer c.awaiting.RUnlock()
 		if err := stream.Send(m); err != nil {
 			log.Errorf("got error sending message: %v", err)
-			c.addSendErr(err)
+			// gRPC returns io.EOF from Send when the stream was ended by the server. That
+			// is not an error of the sender: the status that the server ended the stream
+			// with is delivered to, and recorded by, the receiver.
+			if err != io.EOF {
+				c.addSendErr(err)
+			}
 			return true
 		}
 		log.V(2).Infof("sent Modify message %s", m)
